@@ -135,6 +135,8 @@ def run(ctx):
                                     tested = hs[1]
                                     break
                             table[tested] = k
+            if not table:
+                table = table_driven_arm(F, mk, label) or table
             rows[label] = table
         want = {'Lazer': set(range(1, 11)), 'Intermode': set(range(1, 11)), 'Legacy': set(range(1, 10))}
         nrows = 0
@@ -198,9 +200,9 @@ def run(ctx):
     cr = [c for c in callers.get('model::mods::GameMods::clock_rate', [])]
     allowed = re.compile(r'^(any::difficulty::Difficulty::get_clock_rate|model::beatmap::attributes::BeatmapAttributesBuilder::(hit_windows|build)(::\{closure#\d+\})?)$')
     for fn, bi, t in cr:
-        ctx.require(bool(allowed.match(fn.path)), 'C08-R2', 'clock_rate-caller:' + fn.path, 'GameMods::clock_rate called from %s (override-aware)' % fn.path, fn.where(t['ln']),
+        ctx.require(bool(allowed.match(fn.path)) or fallback_of_override(F, fn, bi), 'C08-R2', 'clock_rate-caller:' + fn.path, 'GameMods::clock_rate called from %s (override-aware)' % fn.path, fn.where(t['ln']),
                     bad='%s reads the mods\' clock rate directly: an explicit Difficulty::clock_rate override is ignored there' % fn.path)
-    ctx.floor('C08-R2', len(cr), 3, 'callers of GameMods::clock_rate')
+    ctx.floor('C08-R2', len(cr), 2, 'callers of GameMods::clock_rate (Difficulty::get_clock_rate and the attribute builder)')
     nfn = 0
     per_name = {}
     for name in ('ar', 'cs', 'hp', 'od'):
@@ -208,16 +210,31 @@ def run(ctx):
         direct = callers.get(path, [])
         for fn, bi, t in direct:
             ctx.violation('C08-R2', 'attr-call:%s:%s' % (name, fn.path), '%s calls GameMods::%s directly: a Difficulty::%s override is ignored there' % (fn.path, name, name), fn.where(t['ln']))
-        # as function value: only as argument of ModsDependentKind::value
+        # as function value: only as argument of ModsDependentKind::value (directly, or through a helper / closure that only forwards it)
         for fn in F.fns:
+            Pf = None
             for bi, t in fn.calls():
-                for a in t['args']:
+                hit = []
+                for ai, a in enumerate(t['args']):
                     if a.get('k') == 'const' and 'fn' in a and a['fn'].get('path') == path:
-                        nfn += 1
-                        per_name[name] = per_name.get(name, 0) + 1
-                        ok = callee_path(t) == VALUE_FN or forwards_to_value(F, callee_path(t), t['args'].index(a) + 1)
-                        ctx.require(ok, 'C08-R2', 'attr-fn:%s:%s' % (name, fn.path), 'GameMods::%s used as mods_fn of ModsDependentKind::value in %s' % (name, fn.path), fn.where(t['ln']),
-                                    bad='GameMods::%s is passed to %s in %s' % (name, callee_path(t), fn.path))
+                        hit.append(ai + 1)
+                if not hit and any(a.get('k') in ('move', 'copy') for a in t['args']) and '{closure#' in (callee_path(t) or ''):
+                    # closure call: the arguments travel in a tuple
+                    Pf = Pf or prov.prov_of(fn)
+                    args = Pf.call_args(bi)
+                    if len(args) == 2 and args[1][0] == 'agg' and args[1][1] == 'tuple':
+                        items = args[1][-1]
+                        for i, x in enumerate(items.values() if isinstance(items, dict) else items):
+                            while x[0] == 'cast':
+                                x = next((y for y in x[1:] if isinstance(y, tuple) and y and isinstance(y[0], str)), ('unknown',))
+                            if x[0] == 'const' and isinstance(x[1], dict) and (x[1].get('fn') or {}).get('path') == path:
+                                hit.append(i + 2)
+                for k in hit:
+                    nfn += 1
+                    per_name[name] = per_name.get(name, 0) + 1
+                    ok = callee_path(t) == VALUE_FN or forwards_to_value(F, callee_path(t), k)
+                    ctx.require(ok, 'C08-R2', 'attr-fn:%s:%s' % (name, fn.path), 'GameMods::%s used as mods_fn of ModsDependentKind::value in %s' % (name, fn.path), fn.where(t['ln']),
+                                bad='GameMods::%s is passed to %s in %s' % (name, callee_path(t), fn.path))
     ctx.floor('C08-R2', nfn, 4, 'uses of GameMods::{ar,cs,hp,od} as mods_fn')
     for name in ('ar', 'cs', 'hp', 'od'):
         ctx.floor('C08-R2', per_name.get(name, 0), 1, 'uses of GameMods::%s as mods_fn' % name)
@@ -292,3 +309,108 @@ def forwards_to_value(F, path, k, depth=0):
         if other_use(node):
             return False
     return handed[0] > 0
+
+
+def const_table(F, cpath):
+    """rows of a constant array of tuples, read from the constant's initialiser MIR: [[operand json, ...], ...] in order"""
+    c = next((c for c in F.j.get('consts', []) if c.get('path') == cpath), None)
+    if c is None or 'mir' not in c:
+        return None
+    blocks = c['mir']['blocks']
+    tuples = {}
+    order = None
+    for b in blocks:
+        for s_ in b['s']:
+            if s_['k'] != 'assign' or 'proj' in s_['p']:
+                continue
+            rv = s_['rv']
+            if rv['k'] == 'agg' and rv.get('ak') == 'tuple':
+                tuples[s_['p']['l']] = rv['ops']
+            elif rv['k'] == 'agg' and rv.get('ak') == 'array' and s_['p']['l'] == 0:
+                order = rv['ops']
+    if order is None:
+        return None
+    rows = []
+    for o in order:
+        if o.get('k') in ('move', 'copy') and 'proj' not in o['p'] and o['p']['l'] in tuples:
+            rows.append(tuples[o['p']['l']])
+        else:
+            return None
+    return rows
+
+
+def table_driven_arm(F, mk, label):
+    """`TABLE.iter().find(|(m, _)| mods.contains(*m)).map(|&(_, k)| k)`: first match in table order — the same decision list as the
+    if-chain. Returns {mod name: key constant} or None"""
+    _, vals = arms.arm_return_values(mk)
+    v = vals.get(label)
+    if v is None:
+        return None
+    v = prov.strip(v, names={'copied', 'cloned'})
+    if not (v[0] == 'call' and v[1].get('name') == 'map' and len(v[2]) == 2):
+        return None
+    fnd, proj = v[2]
+    if not (fnd[0] == 'call' and fnd[1].get('name') == 'find' and len(fnd[2]) == 2):
+        return None
+    it, pred = fnd[2]
+    if not (it[0] == 'call' and it[1].get('name') == 'iter' and it[2] and it[2][0][0] == 'const' and it[2][0][1].get('def')):
+        return None
+    rows = const_table(F, it[2][0][1]['def'])
+    if not rows or pred[0] != 'agg' or pred[1] != 'closure' or proj[0] != 'agg' or proj[1] != 'closure':
+        return None
+    pg, jg = F.fn(pred[2]), F.fn(proj[2])
+    if pg is None or jg is None:
+        return None
+    prv = prov.prov_of(pg).return_value()
+    jrv = prov.strip(prov.prov_of(jg).return_value())
+    # predicate: contains(<the arm's mods>, element.<i>) ; projection: element.<j>
+    if not (prv[0] == 'call' and prv[1].get('name') == 'contains' and len(prv[2]) == 2):
+        return None
+    recv, elem = prv[2]
+    if not (recv[0] == 'field' and recv[1] == ('param', 1) and elem[0] == 'field' and elem[1] == ('param', 2) and str(elem[2]).isdigit()):
+        return None
+    up = pred[4].get(recv[2])
+    if up is None or not any(n[0] == 'variant' and n[2] == label for n in prov.walk(up, limit=20)):
+        return None
+    if not (jrv[0] == 'field' and jrv[1] == ('param', 2) and str(jrv[2]).isdigit()):
+        return None
+    ki, vi = int(elem[2]), int(jrv[2])
+    out = {}
+    for ops in rows:
+        if max(ki, vi) >= len(ops):
+            return None
+        name = (ops[ki].get('rdef') or ops[ki].get('def') or '').split('::')[-1]
+        if not name or name in out:
+            continue            # a later duplicate can never be the first match
+        out[name] = ops[vi].get('val')
+    return out
+
+
+def fallback_of_override(F, fn, bi):
+    """the call of GameMods::clock_rate in block bi of fn only supplies the fallback of an Option-typed `clock_rate` override:
+    `self.clock_rate.unwrap_or_else(|| mods.clock_rate())`, `.map_or(mods.clock_rate(), f)`, `.unwrap_or(..)`, or the None arm of a match"""
+    def on_override(v):
+        return any(n[0] == 'field' and n[2] == 'clock_rate' for n in prov.walk(v, limit=60))
+
+    if fn.kind == 'Closure':
+        parent = F.fn(fn.path.rsplit('::', 1)[0])
+        if parent is None:
+            return False
+        P = prov.prov_of(parent)
+        for pb, pt in parent.calls():
+            if pt['func'].get('name') in ('unwrap_or_else', 'map_or_else', 'or_else'):
+                args = P.call_args(pb)
+                if args and on_override(args[0]) and any(a[0] == 'agg' and a[1] == 'closure' and a[2] == fn.path for a in args[1:]):
+                    return True
+        return False
+    P = prov.prov_of(fn)
+    for ob, ot in fn.calls():
+        if ot['func'].get('name') in ('map_or', 'unwrap_or'):
+            args = P.call_args(ob)
+            if args and on_override(args[0]) and any(any(n[0] == 'call' and (n[1].get('path') or '') == 'model::mods::GameMods::clock_rate' for n in prov.walk(a, limit=40))
+                                                      for a in args[1:2]):
+                return True
+    for c, lab in arms.bool_facts(fn, bi) + [(c, l) for c, l in arms.guards_of(fn, bi)]:
+        if c[0] == 'discr' and on_override(c[1]) and lab == 'None':
+            return True
+    return False
